@@ -1,6 +1,6 @@
 /-
   Specification vocabulary for framing (C02, C11) at the abstract level:
-  `tryParse` is arbitrary; a stream is a sequence of (junk gap, message body)
+  the parser is arbitrary; a stream is a sequence of (junk gap, message body)
   segments followed by a final gap.
 -/
 import Indi.Model.Buf
@@ -17,18 +17,18 @@ def NoOpener (tags : List Str) (g : Str) : Prop := ∀ i, startsKnown tags (g.dr
 
 /-- (A1) whatever parses as a message contains the opener of a known tag
 (true of `IndiMessage.from_string`: the root start tag must be spelled out) -/
-def ParserNeedsOpener (tryParse : Str → Option M) (tags : List Str) : Prop :=
-  ∀ x m, tryParse x = some m → HasOpener tags x
+def ParserNeedsOpener (parse : Str → ParseRes M) (tags : List Str) : Prop :=
+  ∀ x m, parse x = .msg m → HasOpener tags x
 
 /-- (A2) no tag contains `'<'` (decidable on the registry) -/
 def TagsOk (tags : List Str) : Prop := ∀ t ∈ tags, '<' ∉ t
 
 /-- `body` is an admissible encoding of `m`: it starts with a known opener, parses to `m`,
-no proper prefix parses, and it ends with `'>'` preceded by some other character -/
-structure Admissible (tryParse : Str → Option M) (tags : List Str) (body : Str) (m : M) : Prop where
+no proper prefix is a complete XML document, and it ends with `'>'` preceded by some other character -/
+structure Admissible (parse : Str → ParseRes M) (tags : List Str) (body : Str) (m : M) : Prop where
   starts : startsKnown tags body = true
-  parses : tryParse body = some m
-  minimal : ∀ k, k < body.length → tryParse (body.take k) = none
+  parses : parse body = .msg m
+  minimal : ∀ k, k < body.length → parse (body.take k) = .notXml
   ending : ∃ pre c, body = pre ++ [c, '>'] ∧ c ≠ '>'
 
 structure Seg (M : Type) where
@@ -53,9 +53,9 @@ def countDone : List (Seg M) → Nat → Nat
     let len := sg.gap.length + sg.body.length
     if len ≤ n then 1 + countDone rest (n - len) else 0
 
-structure StreamOk (tryParse : Str → Option M) (tags : List Str) (threshold : Option Nat)
+structure StreamOk (parse : Str → ParseRes M) (tags : List Str) (threshold : Option Nat)
     (segs : List (Seg M)) (final : Str) : Prop where
-  seg : ∀ sg ∈ segs, Admissible tryParse tags sg.body sg.msg ∧ NoOpener tags sg.gap ∧ fits threshold (sg.gap ++ sg.body)
+  seg : ∀ sg ∈ segs, Admissible parse tags sg.body sg.msg ∧ NoOpener tags sg.gap ∧ fits threshold (sg.gap ++ sg.body)
   final : NoOpener tags final ∧ fits threshold final
 
 end Indi.Buf
